@@ -31,12 +31,16 @@ vars == <<src, inst, todo, obs>>
 Linear(via, n, a, b, style) == [kind |-> "linear", via |-> via, n |-> n, a |-> a, b |-> b, style |-> style]
 Range(a, b, step, style)    == [kind |-> "range", via |-> "desc", a |-> a, b |-> b, step |-> step, style |-> style]
 Factor(n, base, fact, init, form) == [kind |-> "factor", via |-> "desc", n |-> n, base |-> base, fact |-> fact, init |-> init, form |-> form]
+IterArg(s)                  == [s EXCEPT !.via = "iterarg"]     \* same source, parameters passed as iterator (full form)
 Boundary(via, len, l, m, r) == [kind |-> "boundary", via |-> via, len |-> len, l |-> l, m |-> m, r |-> r]
-Poly(grid, co, sh)          == [kind |-> "poly", via |-> "profile", grid |-> grid, co |-> co, sh |-> sh]
+Poly(via, grid, co, sh)     == [kind |-> "poly", via |-> via, grid |-> grid, co |-> co, sh |-> sh]
+                               \* via "profile": "poly <coeff> : <shifts>" on a non-empty grid; "polyapi": mpt_iterator_poly
 Values(via, vals)           == [kind |-> "values", via |-> via, vals |-> vals]
 Text(vals)                  == [kind |-> "text", via |-> "string", vals |-> vals]
 Buffer(via, vals)           == [kind |-> via, via |-> via, vals |-> vals]      \* via = "buffer" | "args"
 FactorMax                   == [kind |-> "factormax", via |-> "desc"]           \* fac(4294967295): count wraps to 0
+FillSrc(fk, len, ld, a, b, c) == [kind |-> "fill", via |-> "fill", fk |-> fk, len |-> len, ld |-> ld, a |-> a, b |-> b, c |-> c]
+                               \* mpt_values_linear (fk "linear": a..b) / mpt_values_bound (fk "bound": a, b.., c)
 WithExplore(S, e)           == {[x \in DOMAIN s \cup {"explore"} |-> IF x = "explore" THEN e ELSE s[x]] : s \in S}
 
 (* Tier 1: the elements a source denotes *)
@@ -55,6 +59,9 @@ Elems(s) ==
     [] s.kind = "poly"     -> [i \in 1..Len(s.grid) |-> IF s.co = <<>> THEN s.grid[i] ELSE PolyVal(s.grid[i], s.co, s.sh, 1)]
     [] s.kind \in {"values", "text", "buffer", "args"} -> s.vals
     [] s.kind = "factormax" -> <<>>
+    [] s.kind = "fill" -> IF s.fk = "bound"
+                          THEN [i \in 1..s.len |-> IF i = 1 THEN s.a ELSE IF i = s.len THEN s.c ELSE s.b]
+                          ELSE [i \in 1..s.len |-> RAdd(s.a, RDivI(RMul(RInt(i - 1), RSub(s.b, s.a)), s.len - 1))]
 
 (* Tier 2: are the doubles the code computes exactly the rationals? (all    *)
 (* operands dyadic and small: every operation of the code is then exact)    *)
@@ -67,13 +74,14 @@ ExactSrc(s) ==
     [] s.kind = "poly"     -> (\A i \in 1..Len(s.grid) : Dyadic(s.grid[i])) /\ (\A i \in 1..Len(s.co) : Dyadic(s.co[i]))
                               /\ (\A i \in 1..Len(s.sh) : Dyadic(s.sh[i]))
     [] s.kind \in {"values", "text", "buffer", "args"} -> \A i \in 1..Len(s.vals) : Dyadic(s.vals[i])
+    [] s.kind = "fill" -> Dyadic(s.a) /\ Dyadic(s.b) /\ Dyadic(s.c) /\ (s.fk = "bound" \/ Dyadic(RDivI(RSub(s.b, s.a), s.len - 1)))
     [] OTHER -> TRUE
 
 (* Tier 1: how far a computed double may be from the exact element: 2^t     *)
 (* with t = (magnitude of the operands involved) - 48                       *)
 MaxMag(S) == LET E == {MagExp(x) : x \in S} IN IF E = {} THEN 0 ELSE CHOOSE e \in E : \A f \in E : f <= e
 TolExp(s, x) ==
-  (CASE s.kind \in {"linear", "range"} -> MaxMag({s.a, s.b, x})
+  (CASE s.kind \in {"linear", "range", "fill"} -> MaxMag({s.a, s.b, x})
      [] s.kind = "poly" -> MaxMag({x} \cup {RMul(RAbs(s.co[j]), RPow(RAdd(RAbs(s.grid[i]), IF j <= Len(s.sh) THEN RAbs(s.sh[j]) ELSE <<0, 1>>), Len(s.co) - j)) :
                                            i \in 1..Len(s.grid), j \in 1..Len(s.co)}) + 3
      [] OTHER -> MagExp(x)) - 48
@@ -85,7 +93,12 @@ Join(xs, sep) == IF xs = <<>> THEN "" ELSE IF Len(xs) = 1 THEN RText(xs[1]) ELSE
 N2(n) == ToString(n)
 
 Desc(s) ==
-  CASE s.kind = "linear" /\ s.via = "desc" ->
+  CASE s.via = "iterarg" ->       \* the parameters as text iterator handed to _mpt_iterator_linear/_range/_factor
+         (CASE s.kind = "linear" -> N2(s.n) \o " " \o RText(s.a) \o " " \o RText(s.b)
+            [] s.kind = "range"  -> RText(s.a) \o " " \o RText(s.b) \o " " \o RText(s.step)
+            [] s.kind = "factor" -> IF s.form = 1 THEN N2(s.n)
+                                    ELSE N2(s.n) \o " " \o RText(s.base) \o " " \o RText(s.fact) \o " " \o RText(s.init))
+    [] s.kind = "linear" /\ s.via = "desc" ->
          (CASE s.style = 0 -> "lin(" \o N2(s.n) \o ":" \o RText(s.a) \o " " \o RText(s.b) \o ")"
             [] s.style = 1 -> "  Linear ( " \o N2(s.n) \o " : " \o RText(s.a) \o "  " \o RText(s.b) \o " ) "
             [] s.style = 2 -> "LIN(" \o N2(s.n) \o ")")                     \* default bounds 0 1
@@ -94,7 +107,8 @@ Desc(s) ==
     [] s.kind = "range" ->
          (CASE s.style = 0 -> "range(" \o RText(s.a) \o " " \o RText(s.b) \o ":" \o RText(s.step) \o ")"
             [] s.style = 1 -> " Range( " \o RText(s.a) \o " " \o RText(s.b) \o " : " \o RText(s.step) \o " )"
-            [] s.style = 2 -> "range(" \o RText(s.a) \o " " \o RText(s.b) \o ")")   \* default step (b - a) / 10
+            [] s.style = 2 -> "range(" \o RText(s.a) \o " " \o RText(s.b) \o ")"    \* default step (b - a) / 10
+            [] s.style = 3 -> "  ")                                                 \* no description: range(0 1:0.1)
     [] s.kind = "factor" ->
          (CASE s.form = 1 -> "fac(" \o N2(s.n) \o ")"
             [] s.form = 2 -> "fact(" \o N2(s.n) \o ":" \o RText(s.base) \o ")"
@@ -103,17 +117,18 @@ Desc(s) ==
             [] s.form = 5 -> " Fac ( " \o N2(s.n) \o " : " \o RText(s.base) \o " : " \o RText(s.fact) \o " : " \o RText(s.init) \o " )")
     [] s.kind = "factormax" -> "fac(4294967295)"
     [] s.kind = "boundary" /\ s.via = "profile" -> "bound " \o RText(s.l) \o " " \o RText(s.m) \o " " \o RText(s.r)
-    [] s.kind = "poly" -> "poly " \o Join(s.co, " ") \o (IF s.sh = <<>> THEN "" ELSE " : " \o Join(s.sh, " "))
+    [] s.kind = "poly" -> (IF s.via = "profile" THEN "poly " ELSE "") \o Join(s.co, " ") \o (IF s.sh = <<>> THEN "" ELSE " : " \o Join(s.sh, " "))
     [] s.kind \in {"values", "text"} -> Join(s.vals, " ")
     [] s.kind \in {"buffer", "args"} -> Join(s.vals, "|")
     [] OTHER -> ""
 
 CreateArg(s) ==
-  CASE s.kind = "linear" /\ s.via = "api"     -> [via |-> "linear", len |-> s.n + 1, a |-> s.a, b |-> s.b]
+  CASE s.via = "iterarg" -> [via |-> "iterarg", kind |-> s.kind, desc |-> Desc(s)]
+    [] s.kind = "linear" /\ s.via = "api"     -> [via |-> "linear", len |-> s.n + 1, a |-> s.a, b |-> s.b]
     [] s.kind = "linear" /\ s.via = "profile" -> [via |-> "profile", len |-> s.n + 1, desc |-> Desc(s)]
     [] s.kind = "boundary" /\ s.via = "api"     -> [via |-> "boundary", len |-> s.len, a |-> s.l, b |-> s.m, c |-> s.r]
     [] s.kind = "boundary" /\ s.via = "profile" -> [via |-> "profile", len |-> s.len, desc |-> Desc(s)]
-    [] s.kind = "poly"   -> [via |-> "poly", grid |-> s.grid, desc |-> Desc(s)]
+    [] s.kind = "poly"   -> [via |-> IF s.via = "profile" THEN "poly" ELSE "polyapi", grid |-> s.grid, desc |-> Desc(s)]
     [] s.kind = "values" -> [via |-> s.via, desc |-> Desc(s)]              \* "values" | "desc"
     [] s.kind = "text"   -> [via |-> "string", desc |-> Desc(s)]
     [] s.kind \in {"buffer", "args"} -> [via |-> s.kind, desc |-> Desc(s)]
@@ -139,6 +154,9 @@ T1Advance(I, ret) ==
   IF I.pos + 1 < Len(I.seq) THEN ret = "more"
   ELSE IF I.pos + 1 = Len(I.seq) THEN ret = "last"    \* no further element
   ELSE ret \in {"last", "end"}                        \* advancing past the end is reported
+T1Consume(s, I, ret, d) ==                            \* mpt_iterator_consume: value and advance in one
+  IF I.pos < Len(I.seq) THEN ret = "value" /\ Near(d, I.seq[I.pos + 1], TolExp(s, I.seq[I.pos + 1]))
+  ELSE ret = "end"
 T1Reset(ret)  == ret = "ok"
 T1Clone(ret)  == ret \in {"ok", "none"}
 
@@ -162,6 +180,13 @@ Advance(i, ret) ==
                                           !.over = IF I.pos >= Len(I.seq) THEN Min2(I.over + 1, 2) ELSE 0,
                                           !.seen = FALSE]]
   /\ Answer("advance", i, [ret |-> ret])
+  /\ UNCHANGED src
+
+Consume(i, ret, d) ==
+  /\ i \in 1..Len(inst)
+  /\ LET I == inst[i] IN
+     inst' = IF I.pos < Len(I.seq) THEN [inst EXCEPT ![i] = [I EXCEPT !.pos = I.pos + 1, !.over = 0, !.seen = FALSE]] ELSE inst
+  /\ Answer("consume", i, [ret |-> ret, d |-> d])
   /\ UNCHANGED src
 
 Reset(i, ret, seq) ==        \* seq: the sequence replayed from now on
@@ -191,15 +216,27 @@ AdvanceT2(i) ==
   LET I == inst[i] n == Len(I.seq) IN
   Advance(i, IF I.pos + 1 < n THEN "more" ELSE IF I.pos + 1 = n THEN "last"
              ELSE IF TextLike(src) /\ I.over = 0 THEN "last" ELSE "end")
+ConsumeT2(i) ==
+  LET I == inst[i] IN
+  IF I.pos < Len(I.seq) THEN Consume(i, "value", DExp(src, I.seq[I.pos + 1])) ELSE Consume(i, "end", <<>>)
+Consumable(s) == s.kind \notin {"buffer", "args"}      \* string elements are not converted to numbers by consume
 ResetT2(i) == Reset(i, "ok", inst[i].seq)
 CloneT2Act(i) ==
   /\ Len(inst) < MaxInst
   /\ IF Cloneable(src) THEN Clone(i, "ok", CloneT2(src, inst[i])) ELSE Clone(i, "none", inst[i])
 
+(* mpt_values_linear / mpt_values_bound: the whole sequence written to a strided array *)
+FillAct ==
+  /\ obs' = [a |-> "fill", arg |-> [kind |-> src.fk, len |-> src.len, ld |-> src.ld, a |-> src.a, b |-> src.b, c |-> src.c],
+             exp |-> [vals |-> IF ExactSrc(src) THEN [i \in 1..src.len |-> DExp(src, Elems(src)[i])] ELSE <<>>, clean |-> 1]]
+  /\ UNCHANGED <<src, inst>>
+
 Do(c) ==
-  CASE c[1] = "V" -> ValueT2(c[2])
+  CASE c[1] = "F" -> FillAct
+    [] c[1] = "V" -> ValueT2(c[2])
     [] c[1] = "A" -> AdvanceT2(c[2])
     [] c[1] = "R" -> ResetT2(c[2])
+    [] c[1] = "X" -> ConsumeT2(c[2])
     [] c[1] = "C" -> CloneT2Act(c[2])
 
 (* the documented loop, past the end, reset, half a walk, clone, ... *)
@@ -213,13 +250,16 @@ Script(s) ==
   IN Rep(VA1, n) \o VA1 \o <<<<"R", 1>>>> \o Rep(VA1, h)
      \o (IF Cloneable(s) THEN <<<<"C", 1>>>> \o Rep(VA2, n - h) \o VA2 \o <<<<"R", 2>>>> \o VA2 ELSE <<>>)
      \o VA1
+     \o (IF Consumable(s) THEN <<<<"R", 1>>>> \o Rep(<<<<"X", 1>>>>, n + 1) ELSE <<>>)
 
 ---------------------------------------------------------------------------
 Init ==
   /\ src \in Sources
-  /\ inst = <<Fresh(Elems(src))>>
-  /\ todo = IF src.explore THEN <<>> ELSE Script(src)
-  /\ obs = [a |-> "create", arg |-> CreateArg(src), src |-> src, exp |-> [ret |-> "ok"]]
+  /\ inst = IF src.kind = "fill" THEN <<>> ELSE <<Fresh(Elems(src))>>
+  /\ todo = IF src.kind = "fill" THEN <<<<"F", 0>>>> ELSE IF src.explore THEN <<>> ELSE Script(src)
+  /\ obs = IF src.kind = "fill"
+           THEN [a |-> "nop", arg |-> [x |-> 0], src |-> src, exp |-> [ret |-> "ok"]]
+           ELSE [a |-> "create", arg |-> CreateArg(src), src |-> src, exp |-> [ret |-> "ok"]]
 
 Next ==
   \/ /\ todo # <<>>
@@ -231,25 +271,29 @@ Next ==
           \/ ValueT2(i)
           \/ (TextLike(src) => inst[i].seen \/ inst[i].pos >= Len(inst[i].seq)) /\ AdvanceT2(i)
           \/ ResetT2(i)
+          \/ Consumable(src) /\ ConsumeT2(i)
           \/ CloneT2Act(i)
 
 Spec == Init /\ [][Next]_vars
 
 ---------------------------------------------------------------------------
 TypeOK ==
-  /\ Len(inst) \in 1..MaxInst
+  /\ Len(inst) \in 0..MaxInst
   /\ \A i \in 1..Len(inst) : inst[i].pos \in 0..Len(inst[i].seq) /\ inst[i].over \in 0..2
 
 (* every answer of the design is acceptable to the meaning (Tier 2 => Tier 1) *)
 Accepts ==
-  [][ LET i == obs'.arg.i IN
+  [][ LET i == IF obs'.a = "fill" THEN 0 ELSE obs'.arg.i IN
       CASE obs'.a = "value"   -> IF obs'.exp.d = <<>> THEN obs'.exp.ret = (IF inst[i].pos < Len(inst[i].seq) THEN "value" ELSE "end")
                                  ELSE T1Value(src, inst[i], obs'.exp.ret, obs'.exp.d) /\ Exactly(obs'.exp.d, inst[i].seq[inst[i].pos + 1])
+        [] obs'.a = "consume" -> IF obs'.exp.d = <<>> THEN obs'.exp.ret = (IF inst[i].pos < Len(inst[i].seq) THEN "value" ELSE "end")
+                                 ELSE T1Consume(src, inst[i], obs'.exp.ret, obs'.exp.d)
         [] obs'.a = "advance" -> T1Advance(inst[i], obs'.exp.ret)
         [] obs'.a = "reset"   -> T1Reset(obs'.exp.ret)
         [] obs'.a = "clone"   -> T1Clone(obs'.exp.ret) /\ (obs'.exp.ret = "ok" =>
                                     /\ Remaining(inst'[Len(inst')]) = Remaining(inst[i])
                                     /\ inst'[Len(inst')].seq \in {CloneT1(inst[i]).seq, CloneT1(inst[i]).alt})
+        [] obs'.a = "fill"    -> obs'.exp.vals = <<>> \/ \A k \in 1..src.len : Exactly(obs'.exp.vals[k], Elems(src)[k])
         [] OTHER -> TRUE ]_vars
 
 (* the documented loop visits exactly the denoted elements: an instance at  *)
